@@ -797,3 +797,111 @@ func (x *Exec) sscanf(input, format Str, ptrs []Value) Value {
 	}
 	return Tuple{x.intConst(nset), nilErr}
 }
+
+func init() {
+	// runtime-assisted helpers below strings/bytes (assembly in the real library)
+	idxByte := func(x *Exec, s []*Term, c *Term) Value {
+		for i, b := range s {
+			if x.c.Branch(x.c.st.Eq(b, c)) {
+				return x.intConst(int64(i))
+			}
+		}
+		return x.intConst(-1)
+	}
+	intrinsics["internal/bytealg.IndexByteString"] = func(x *Exec, a []Value) Value { return idxByte(x, a[0].(Str).b, a[1].(*Term)) }
+	intrinsics["internal/bytealg.IndexByte"] = func(x *Exec, a []Value) Value { return idxByte(x, x.strOf(a[0]).b, a[1].(*Term)) }
+	cnt := func(x *Exec, s []*Term, c *Term) Value {
+		n := int64(0)
+		for _, b := range s {
+			if x.c.Branch(x.c.st.Eq(b, c)) {
+				n++
+			}
+		}
+		return x.intConst(n)
+	}
+	intrinsics["internal/bytealg.CountString"] = func(x *Exec, a []Value) Value { return cnt(x, a[0].(Str).b, a[1].(*Term)) }
+	intrinsics["internal/bytealg.Count"] = func(x *Exec, a []Value) Value { return cnt(x, x.strOf(a[0]).b, a[1].(*Term)) }
+	intrinsics["internal/bytealg.IndexString"] = func(x *Exec, a []Value) Value {
+		return x.intConst(int64(x.strIndex(a[0].(Str), a[1].(Str), 0)))
+	}
+	intrinsics["internal/bytealg.Index"] = func(x *Exec, a []Value) Value {
+		return x.intConst(int64(x.strIndex(x.strOf(a[0]), x.strOf(a[1]), 0)))
+	}
+	intrinsics["internal/bytealg.Equal"] = func(x *Exec, a []Value) Value { return x.eqVal(x.strOf(a[0]), x.strOf(a[1])) }
+	intrinsics["internal/bytealg.Compare"] = func(x *Exec, a []Value) Value {
+		p, q := x.strOf(a[0]), x.strOf(a[1])
+		if x.c.Branch(x.eqVal(p, q)) {
+			return x.intConst(0)
+		}
+		if x.c.Branch(x.strLess(p, q, false)) {
+			return x.intConst(-1)
+		}
+		return x.intConst(1)
+	}
+	intrinsics["strings.Index"] = func(x *Exec, a []Value) Value { return x.intConst(int64(x.strIndex(a[0].(Str), a[1].(Str), 0))) }
+	intrinsics["strings.Contains"] = func(x *Exec, a []Value) Value {
+		return x.c.st.Bool(x.strIndex(a[0].(Str), a[1].(Str), 0) >= 0)
+	}
+	intrinsics["bytes.Equal"] = func(x *Exec, a []Value) Value { return x.eqVal(x.strOf(a[0]), x.strOf(a[1])) }
+	intrinsics["strconv.Itoa"] = func(x *Exec, a []Value) Value { return Str{x.decimal(a[0].(*Term), false)} }
+	intrinsics["errors.Is"] = func(x *Exec, a []Value) Value {
+		e, _ := a[0].(Iface).v.(*ErrObj)
+		t, _ := a[1].(Iface).v.(*ErrObj)
+		for e != nil {
+			if e == t {
+				return x.c.st.True
+			}
+			e = e.wrap
+		}
+		return x.c.st.Bool(a[0].(Iface).t == nil && a[1].(Iface).t == nil)
+	}
+	intrinsics["os.WriteFile"] = func(x *Exec, a []Value) Value {
+		r := intrinsics["os.Create"](x, []Value{a[0]}).(Tuple)
+		if r[1].(Iface).t != nil {
+			return r[1]
+		}
+		w := intrinsics["(*os.File).Write"](x, []Value{r[0], a[1]}).(Tuple)
+		return w[1]
+	}
+	intrinsics["os.RemoveAll"] = func(x *Exec, a []Value) Value {
+		p := a[0].(Str)
+		if e, f := x.fallible("remove", p); f {
+			return e
+		}
+		n, par, _, ek := x.resolve(p)
+		if ek != "" || par == nil {
+			return nilErr
+		}
+		for i, e := range par.ents {
+			if e.node == n {
+				par.ents = append(par.ents[:i:i], par.ents[i+1:]...)
+				break
+			}
+		}
+		x.mutated("removeall", p)
+		return nilErr
+	}
+	intrinsics["os.Lstat"] = func(x *Exec, a []Value) Value { return intrinsics["os.Stat"](x, a) }
+	intrinsics["os.IsExist"] = func(x *Exec, a []Value) Value {
+		ifc := a[0].(Iface)
+		e, ok := ifc.v.(*ErrObj)
+		return x.c.st.Bool(ifc.t != nil && ok && (e.kind == "EEXIST" || e.kind == "ENOTEMPTY"))
+	}
+	intrinsics["path/filepath.Base"] = func(x *Exec, a []Value) Value {
+		p := a[0].(Str)
+		if len(p.b) == 0 {
+			return x.cstr(".")
+		}
+		comps, _ := x.splitPath(p)
+		if len(comps) == 0 {
+			return x.cstr("/")
+		}
+		return comps[len(comps)-1]
+	}
+	intrinsics["path/filepath.ToSlash"] = func(x *Exec, a []Value) Value { return a[0] }
+	intrinsics["path/filepath.FromSlash"] = func(x *Exec, a []Value) Value { return a[0] }
+	intrinsics["path/filepath.IsAbs"] = func(x *Exec, a []Value) Value {
+		p := a[0].(Str)
+		return x.c.st.Bool(len(p.b) > 0 && x.c.Branch(x.c.st.Eq(p.b[0], x.c.st.Const(8, '/'))))
+	}
+}
